@@ -24,6 +24,10 @@ struct Node {
 // A comparator with state (it dereferences a pointer), handed to the tree as a temporary: the tree has to keep a copy.
 int g_bias = 0;
 struct KeyLess { const int *bias = &g_bias; bool operator()(const Node &a, const Node &b) const { return a.key + *bias < b.key + *bias; } };
+// An aggregate comparator without member initialisers: a tree constructed without a comparator argument uses L() (flip == 0),
+// wherever the tree object lives (c.make<T>() default-initialises it in storage that holds 0xA5 bytes).
+struct FlipLess { unsigned flip; bool operator()(const Node &a, const Node &b) const { return flip ? b.key < a.key : a.key < b.key; } };
+using FTree = frg::rbtree<Node, &Node::hook, FlipLess>;
 __attribute__((noinline)) void scribble_stack() { volatile unsigned char buf[768]; for(size_t i = 0; i < sizeof buf; i++) buf[i] = 0xA5; }
 using Tree = frg::rbtree<Node, &Node::hook, KeyLess>;
 using OTree = frg::rbtree_order<Node, &Node::hook>;
@@ -240,8 +244,35 @@ void run_order(Ctx &c) {
 }
 } // namespace
 
+// a short history on a default-constructed tree with the aggregate comparator: the walk must be in the order of FlipLess{} (ascending keys,
+// equal keys in insertion order)
+void run_default_comparator(Ctx &c) {
+	auto &t = c.t;
+	constexpr int N = 24;
+	Node *pool = (Node *)c.raw(sizeof(Node) * N);
+	memset((void *)pool, 0xA5, sizeof(Node) * N);
+	for(int i = 0; i < N; i++) { new (&pool[i]) Node; pool[i].serial = i; }
+	FTree *tree = c.make<FTree>();
+	c.op("default-constructed tree with an aggregate comparator (no member initialisers)");
+	c.tag("default-constructed-comparator");
+	std::vector<Node *> ref;
+	unsigned n = 2 + t.pick(N - 2);
+	for(unsigned i = 0; i < n; i++) { pool[i].key = (int)t.pick(8); c.op("insert(#%u key %d)", i, pool[i].key); tree->insert(&pool[i]);
+		auto pos = std::upper_bound(ref.begin(), ref.end(), &pool[i], [](const Node *a, const Node *b) { return a->key < b->key; }); ref.insert(pos, &pool[i]); }
+	size_t k = 0;
+	for(Node *p = tree->first(); p; p = FTree::successor(p), k++) {
+		VCHECK(c, "C06", k < ref.size(), "the walk yields more than %zu nodes", ref.size());
+		VCHECK(c, "C06", p == ref[k], "position %zu of the walk holds key %d (#%d); the order of the value-initialised comparator wants key %d (#%d)", k, p->key, p->serial, ref[k]->key, ref[k]->serial);
+	}
+	VCHECK(c, "C06", k == ref.size(), "the walk yields %zu of %zu nodes", k, ref.size());
+	while(!ref.empty()) { tree->remove(ref.back()); ref.pop_back(); }
+	c.check_san("C06");
+	c.nontrivial = n >= 4;
+}
+
 void verif_case(Ctx &c) {
 	unsigned mode = c.t.pick(4);
+	if(mode == 3 && c.t.pick(4) == 0) { run_default_comparator(c); return; }
 	if(mode == 0) run_keyed(c, true);
 	else if(mode == 3) run_order(c);
 	else run_keyed(c, false);
